@@ -8,6 +8,7 @@ import (
 	"fmt"
 	"os"
 	"path/filepath"
+	"runtime"
 	"sort"
 	"strconv"
 	"strings"
@@ -355,11 +356,40 @@ func (ck Check[C]) runOne(c C) (rec *Rec, err error) {
 	rec = &Rec{}
 	defer func() {
 		if p := recover(); p != nil {
-			err = fmt.Errorf("panic while evaluating the case: %v", p)
+			where := panicOrigin()
+			if strings.Contains(where, "verif/harness") {
+				// a bug of the checking machinery itself: never a violation
+				HarnessError("panic in the harness at %s while evaluating a %s/%s case: %v", where, ck.Property, ck.Part, p)
+				rec.unasserted = true
+				err = nil
+				return
+			}
+			err = fmt.Errorf("panic while evaluating the case (raised in %s): %v", where, p)
 		}
 	}()
 	err = ck.Run(c, rec)
 	return rec, err
+}
+
+// panicOrigin names the function in which the current panic was raised (first non-runtime frame
+// below runtime.gopanic). Must be called from a deferred function while panicking.
+func panicOrigin() string {
+	pcs := make([]uintptr, 64)
+	n := runtime.Callers(2, pcs)
+	frames := runtime.CallersFrames(pcs[:n])
+	seenPanic := false
+	for {
+		f, more := frames.Next()
+		if strings.HasPrefix(f.Function, "runtime.gopanic") {
+			seenPanic = true
+		} else if seenPanic && !strings.HasPrefix(f.Function, "runtime.") {
+			return fmt.Sprintf("%s (%s:%d)", f.Function, filepath.Base(f.File), f.Line)
+		}
+		if !more {
+			break
+		}
+	}
+	return "unknown"
 }
 
 // Execute runs (a) a requested replay, or (b) the regress corpus followed by the rapid search.
